@@ -56,7 +56,9 @@ type c12Form struct {
 // "via-symlink": absolute input path through a symbolic link to the module root, started outside the module
 // (the output path then is spelled through the link as well); "out-otherdir": -out into a directory of
 // its own, where the old output is the only Go file.
-var c12Forms = []c12Form{{"pkgdir-rel"}, {"modroot-rel"}, {"out-flag"}, {"abs"}, {"via-symlink"}, {"out-otherdir"}}
+// "dry-print": -dry -print; what is observed instead of the written bytes is the printed code (a dry run, too,
+// behaves as if the output path were empty).
+var c12Forms = []c12Form{{"pkgdir-rel"}, {"modroot-rel"}, {"out-flag"}, {"abs"}, {"via-symlink"}, {"out-otherdir"}, {"dry-print"}}
 
 const c12OutFlagName = "aa_conv.gen.go" // sorts before every generated sibling name
 
@@ -73,6 +75,8 @@ func (f c12Form) spec(root string, sc *c12Scen) (args []string, dir, out string)
 		return []string{setupAbs}, filepath.Join(root, "vtr"), defOut
 	case "via-symlink":
 		return []string{filepath.Join(root+"-lnk", sc.SetupRel)}, filepath.Dir(root), defOut
+	case "dry-print":
+		return []string{"-dry", "-print", filepath.Base(sc.SetupRel)}, filepath.Join(root, sc.PkgRel), defOut
 	case "out-otherdir":
 		return []string{"-out", "../c12out/conv.gen.go", filepath.Base(sc.SetupRel)}, filepath.Join(root, sc.PkgRel), filepath.Join(root, "c12out", "conv.gen.go")
 	}
@@ -174,6 +178,16 @@ func c12HandScenarios() []*c12Scen {
 	)
 	himp3.Files["himp3/types.go"] = "package sc\n\ntype SC struct {\n\tCode int\n\tName string\n}\ntype DL struct {\n\tLabel string\n\tName  string\n}\n"
 	r = append(r, himp3)
+	// an imported package that has a file with the SAME BASE NAME as the output (it was generated by
+	// convergen, too) and a converter in it: only the file AT the output path is to be left out of the load
+	himp4 := mk("himp4",
+		"//go:build convergen\n\npackage sc\n\nimport _ \"vb/himp4/dep\"\n\ntype Convergen interface {\n\t// :conv dep.ConvCode Code Label\n\tToDL(*SC) *DL\n}\n",
+		c12Version{"rename-method", "//go:build convergen\n\npackage sc\n\nimport _ \"vb/himp4/dep\"\n\ntype Convergen interface {\n\t// :conv dep.ConvCode Code Label\n\tToDLOld(*SC) *DL\n}\n"},
+	)
+	himp4.Files["himp4/types.go"] = "package sc\n\ntype SC struct {\n\tCode int\n\tName string\n}\ntype DL struct {\n\tLabel string\n\tName  string\n}\n"
+	himp4.Files["himp4/dep/setup.gen.go"] = "// Code generated by github.com/reedom/convergen\n// DO NOT EDIT.\n\npackage dep\n\nfunc ConvCode(v int) string { return \"code\" }\n"
+	himp4.Files["himp4/dep/aa_conv.gen.go"] = "package dep\n\nfunc ConvOther(v int) string { return \"other\" }\n"
+	r = append(r, himp4)
 	return r
 }
 
@@ -344,6 +358,12 @@ func c12Run(e *core.Env, root string, sc *c12Scen, form c12Form, pre *c12Pre) c1
 	}
 	res := e.Run(core.RunSpec{Args: args, Dir: dir, WallSec: 120})
 	o := c12Obs{Res: res}
+	if form.Name == "dry-print" && res.Exit == 0 {
+		// the printed code stands for the output (the file at the output path is the pre-state, untouched -
+		// C15); after a failing run the file is looked at as for every other form
+		o.Present, o.Out = true, []byte(res.Stdout)
+		return o
+	}
 	if b, err := os.ReadFile(out); err == nil {
 		o.Present, o.Out = true, b
 	}
